@@ -1,10 +1,7 @@
 package rules
 
 import (
-	"bytes"
 	"fmt"
-	"go/ast"
-	"go/printer"
 	"go/token"
 	"go/types"
 	"os"
@@ -34,7 +31,8 @@ import (
 // (e) ACCOUNTING: bytes parked in the token buffer are exactly the bytes
 //     removed from the chunk (collect), and the amount subtracted from the
 //     remaining length is exactly the amount consumed (cborl.stepBytes).
-// (f) CLONES: cborl.collect and ubjson.collect are the same function.
+// (f) PARKED-FIRST: collect returns a slice of the chunk as the token only
+//     behind a test of the parked bytes of a split token.
 
 func R22(pkgs ...string) func(p *core.Prog) *core.Result {
 	in := map[string]bool{}
@@ -42,7 +40,7 @@ func R22(pkgs ...string) func(p *core.Prog) *core.Result {
 		in[k] = true
 	}
 	return func(p *core.Prog) *core.Result {
-		r := core.NewResult("R22", "structural invariants of the hand-written parser state machines ("+strings.Join(pkgs, ",")+"): major-type mask, pop order, no lost updates on local copies of parser state, stack initialisation, byte accounting of parked/consumed input, sibling clones agree")
+		r := core.NewResult("R22", "structural invariants of the hand-written parser state machines ("+strings.Join(pkgs, ",")+"): major-type mask, pop order, no lost updates on local copies of parser state, stack initialisation, byte accounting of parked/consumed input, parked bytes are looked at before a zero-copy token is handed out")
 		if in["cborl"] {
 			majorMask(p, r)
 			popOrder(p, r)
@@ -56,8 +54,10 @@ func R22(pkgs ...string) func(p *core.Prog) *core.Result {
 				collectAccounting(p, r, pk)
 			}
 		}
-		if in["cborl"] || in["ubjson"] {
-			collectClones(p, r)
+		for _, pk := range []string{"cborl", "ubjson"} {
+			if in[pk] {
+				collectParkedFirst(p, r, pk)
+			}
 		}
 		return r
 	}
@@ -145,7 +145,7 @@ func popOrder(p *core.Prog, r *core.Result) {
 			for _, in := range b.Instrs {
 				if c, ok := in.(*ssa.Call); ok {
 					if sc := c.Common().StaticCallee(); sc != nil {
-						if core.FuncName(sc) == "pop" && sc.Signature.Recv() != nil && namedOf(sc.Signature.Recv().Type()) != nil && namedOf(sc.Signature.Recv().Type()).Obj().Name() == "lengthStack" {
+						if core.FuncName(sc) == "pop" && sc.Signature.Recv() != nil && namedOf(sc.Signature.Recv().Type()) != nil && core.TypeName(namedOf(sc.Signature.Recv().Type())) == "lengthStack" {
 							hasPop = true
 						}
 						if core.FuncName(sc) == "popState" || core.FuncName(sc) == "onValue" {
@@ -601,45 +601,214 @@ func stepBytesAccounting(p *core.Prog, r *core.Result) {
 	r.Floor("partial_length_functions", n, 1)
 }
 
-// ---- (f) ----
-func collectClones(p *core.Prog, r *core.Result) {
-	var bodies []string
-	var pos []string
-	for _, pk := range []string{"cborl", "ubjson"} {
-		pp := p.Pkgs[pk]
-		if pp == nil {
-			r.Undecided(".CLONES", pk, "package not loaded")
-			return
+// ---- (f) PARKED-FIRST ----
+//
+// collect hands out a zero-copy token (a slice of the chunk) only on paths that
+// looked at the parked bytes of a token split by an earlier chunk first. A
+// fast path in front of that test takes a resumed token entirely from the new
+// chunk whenever the chunk happens to be long enough.
+
+type pfState struct{ tested bool }
+type pfClient struct {
+	p      *core.Prog
+	fn     *ssa.Function
+	chunk  *ssa.Parameter
+	parked string // field path of the parked-bytes buffer
+	tokIdx int
+	bad    string
+	views  int
+}
+
+func (k *pfClient) Key(s pfState) string                              { return fmt.Sprint(s.tested) }
+func (k *pfClient) Phis(s pfState, _ *ssa.BasicBlock, _ int) pfState { return s }
+func (k *pfClient) Instr(s pfState, _ ssa.Instruction) (pfState, bool, []pfState) {
+	return s, true, nil
+}
+func (k *pfClient) Branch(s pfState, cond ssa.Value, _ bool) (pfState, bool) {
+	for {
+		u, ok := cond.(*ssa.UnOp)
+		if !ok || u.Op != token.NOT {
+			break
 		}
-		fd := (*ast.FuncDecl)(nil)
-		for _, file := range pp.Syntax {
-			for _, d := range file.Decls {
-				if f, ok := d.(*ast.FuncDecl); ok && f.Name.Name == core.CurrentName(pk, "collect") && f.Recv != nil {
-					fd = f
+		cond = u.X
+	}
+	if bo, ok := cond.(*ssa.BinOp); ok {
+		for _, v := range []ssa.Value{bo.X, bo.Y} {
+			c, ok := v.(*ssa.Call)
+			if !ok {
+				continue
+			}
+			if bi, ok := c.Common().Value.(*ssa.Builtin); !ok || bi.Name() != "len" {
+				continue
+			}
+			if ld, ok := c.Common().Args[0].(*ssa.UnOp); ok && ld.Op == token.MUL {
+				if rel, ok := recvPath(k.fn, ld.X); ok && rel == k.parked {
+					s.tested = true
 				}
 			}
 		}
-		if fd == nil {
-			r.Undecided(".CLONES", pk+".collect", "collect not found")
-			return
-		}
-		var buf bytes.Buffer
-		// print without comments / positions
-		printer.Fprint(&buf, token.NewFileSet(), stripComments(fd.Body))
-		bodies = append(bodies, normalizeWS(buf.String()))
-		pos = append(pos, p.Pos(fd.Pos()))
 	}
-	if bodies[0] == bodies[1] {
-		r.Ok(".CLONES", pos[0], "cborl.(*Parser).collect and ubjson.(*Parser).collect are the same function")
-	} else {
-		r.Fail(".CLONES", "collect", pos[1], "cborl.(*Parser).collect ("+pos[0]+") and ubjson.(*Parser).collect ("+pos[1]+") have diverged: the token-resumption logic of the two binary parsers was written once and copied; a change to one of them that is not a bug fix for both is a chunking bug in one", "")
+	return s, true
+}
+func (k *pfClient) Return(s pfState, ret *ssa.Return) {
+	if k.tokIdx >= len(ret.Results) {
+		return
+	}
+	tok := ret.Results[k.tokIdx]
+	if isNilConst(tok) {
+		return
+	}
+	fromChunk := false
+	for _, o := range origins(tok) {
+		if o == ssa.Value(k.chunk) {
+			fromChunk = true
+		}
+	}
+	if !fromChunk {
+		return
+	}
+	k.views++
+	if !s.tested {
+		k.bad = "returns a slice of the chunk as the token at " + k.p.Pos(token.Pos(instrPos(ret))) + " on a path that never looked at the parked bytes of a split token"
 	}
 }
 
-func stripComments(n ast.Node) ast.Node { return n }
-
-func normalizeWS(s string) string {
-	return strings.Join(strings.Fields(s), " ")
+func collectParkedFirst(p *core.Prog, r *core.Result, pk string) {
+	fam, err := buildFamily(p, pk)
+	if err != nil || fam.collect == nil {
+		r.Undecided(".PARKED-FIRST", pk+".collect", "collect not found")
+		return
+	}
+	f := fam.collect
+	fkey := core.FuncKey(f)
+	var chunk *ssa.Parameter
+	for _, prm := range f.Params[1:] {
+		if isByteSlice(prm.Type()) {
+			chunk = prm
+			break
+		}
+	}
+	// the parked buffer: the receiver field collect appends the chunk to
+	parked := ""
+	for _, b := range f.Blocks {
+		for _, in := range b.Instrs {
+			st, ok := in.(*ssa.Store)
+			if !ok {
+				continue
+			}
+			c, ok := st.Val.(*ssa.Call)
+			if !ok {
+				continue
+			}
+			if bi, ok := c.Common().Value.(*ssa.Builtin); !ok || bi.Name() != "append" {
+				continue
+			}
+			if rel, ok := recvPath(f, st.Addr); ok && rel != "" {
+				parked = rel
+			}
+		}
+	}
+	// the token result: the []byte result that is a slice of the parked buffer on some return
+	tokIdx := -1
+	for _, b := range f.Blocks {
+		ret, ok := b.Instrs[len(b.Instrs)-1].(*ssa.Return)
+		if !ok {
+			continue
+		}
+		for i, rv := range ret.Results {
+			if !isByteSlice(rv.Type()) {
+				continue
+			}
+			if sl, ok := rv.(*ssa.Slice); ok {
+				if ld, ok := sl.X.(*ssa.UnOp); ok && ld.Op == token.MUL {
+					if rel, ok := recvPath(f, ld.X); ok && rel == parked && parked != "" {
+						tokIdx = i
+					}
+				}
+			}
+		}
+	}
+	if chunk == nil || parked == "" || tokIdx < 0 {
+		r.Undecided(".PARKED-FIRST", fkey+"|shape", fmt.Sprintf("could not identify the chunk (%v), the parked buffer (%q) or the token result (%d) of %s", chunk != nil, parked, tokIdx, fkey))
+		return
+	}
+	// PARKED-STORES: the parked buffer only ever receives its own content plus appended chunk bytes, a reslice of
+	// itself, or an empty slice - never the chunk itself (retained input) or a pre-sized non-empty allocation
+	for _, b := range f.Blocks {
+		for _, in := range b.Instrs {
+			st, ok := in.(*ssa.Store)
+			if !ok {
+				continue
+			}
+			if rel, ok := recvPath(f, st.Addr); !ok || rel != parked {
+				continue
+			}
+			isParkedLoad := func(v ssa.Value) bool {
+				ld, ok := v.(*ssa.UnOp)
+				if !ok || ld.Op != token.MUL {
+					return false
+				}
+				rel, ok := recvPath(f, ld.X)
+				return ok && rel == parked
+			}
+			why, code := "", ""
+			switch v := st.Val.(type) {
+			case *ssa.Call:
+				bi, isB := v.Common().Value.(*ssa.Builtin)
+				if !isB || bi.Name() != "append" || !isParkedLoad(v.Common().Args[0]) {
+					why, code = "is assigned something other than append(<itself>, ...)", "append-base"
+					break
+				}
+				fromChunk := false
+				for _, o := range origins(v.Common().Args[1]) {
+					if o == ssa.Value(chunk) {
+						fromChunk = true
+					}
+				}
+				if !fromChunk {
+					why, code = "is extended with bytes that do not come from the chunk", "append-src"
+				}
+			case *ssa.Slice:
+				if isParkedLoad(v.X) {
+					break // reslice of itself
+				}
+				// x.backing[:0]
+				if _, okp := recvPath(f, v.X); okp && v.High != nil && isIntConst(v.High, 0) {
+					break
+				}
+				why, code = "is assigned a slice of something other than itself or its empty backing array", "slice"
+			case *ssa.MakeSlice:
+				if !isIntConst(v.Len, 0) {
+					why, code = "is replaced by a freshly allocated slice of non-zero length (its zero bytes count as parked input)", "make"
+				}
+			default:
+				why, code = "is assigned a value that is not built from its own content", "other"
+				for _, o := range origins(st.Val) {
+					if o == ssa.Value(chunk) {
+						why, code = "is assigned the chunk itself: the caller may reuse that memory before the rest of the token arrives", "chunk"
+					}
+				}
+			}
+			pos := p.Pos(token.Pos(instrPos(st)))
+			if why == "" {
+				r.Ok(".PARKED-STORES", pos, fkey+": the parked buffer receives its own content plus chunk bytes, a reslice of itself or an empty slice")
+			} else {
+				r.Fail(".PARKED-STORES", fkey+"|"+code, pos, fkey+": the parked-token buffer "+why+" at "+pos+": the bytes handed out for a token split across chunks are no longer exactly the bytes taken from the chunks", "")
+			}
+		}
+	}
+	k := &pfClient{p: p, fn: f, chunk: chunk, parked: parked, tokIdx: tokIdx}
+	_, capped := WalkPaths[pfState](k, f.Blocks[0], 0, pfState{}, 200000, nil)
+	switch {
+	case capped:
+		r.Undecided(".PARKED-FIRST", fkey, "state cap hit")
+	case k.views == 0:
+		r.Undecided(".PARKED-FIRST", fkey+"|noview", fkey+" never returns a slice of the chunk as the token: anchor lost")
+	case k.bad != "":
+		r.Fail(".PARKED-FIRST", fkey, p.Pos(f.Pos()), fkey+" "+k.bad+": a token resumed from an earlier chunk is taken entirely from the new chunk whenever that chunk is long enough, the parked prefix is dropped and stays behind for the next split token", "")
+	default:
+		r.Ok(".PARKED-FIRST", p.Pos(f.Pos()), fkey+": every zero-copy token is returned behind a test of the parked bytes")
+	}
 }
 
 // ---- (g) SIBLING-ARMS (cborl) ----
